@@ -22,13 +22,13 @@ BOUNDED = {
     "C13": "TestBoundedCodecs|TestBoundedDecisionTable",
     "C15": "TestBoundedAddQuery|TestBoundedMergeHeader|TestBoundedRewriter|TestBoundedHeaderModel",
     "C14": "TestBoundedSortLocations|TestBoundedRouting",
-    "C03": "TestBoundedHeaderModel|TestBoundedRequestIsPass|TestBoundedCacheMaxAge",
+    "C03": "TestBoundedHeaderModel|TestBoundedRequestIsPass|TestBoundedCacheMaxAge|TestBoundedMergeHeader",
     "C09": "TestBoundedJSONHeader|TestBoundedBufferAlgebra|TestBoundedRegexpString|TestBoundedFormat",
     "C08": "TestBoundedJSONHeader|TestBoundedBufferAlgebra|TestBoundedFormat", "C10": "TestBoundedBufferAlgebra|TestBoundedFormat",
     "C17": "TestBoundedYAML",
 }
 # quick tier: only the stand-ins of TRUSTED pike functions (where the contracts are blind), a few seconds
-QUICK_BOUNDED = {"C15": "TestBoundedAddQuery|TestBoundedMergeHeader"}
+QUICK_BOUNDED = {"C15": "TestBoundedAddQuery|TestBoundedMergeHeader", "C03": "TestBoundedMergeHeader"}
 if quick:
     BOUNDED = QUICK_BOUNDED
     if pid not in BOUNDED:
